@@ -63,3 +63,11 @@ def apply_sub(x, st, pattern, repl, src, result):
     if fn is not None:
         x.assumptions.add(f"re.sub contract (assumed, validated by enumeration): {pattern!r}")
         fn(x, st, repl, src, result)
+
+
+@contract(r"\\$(\\d+)".replace("\\\\", "\\"))
+def _dollar_digits(x, st, kind, sv, groups):
+    # \d in a str pattern = Unicode decimal digits (Nd)
+    from . import smt
+    st.pc.append(z3.InRe(groups[1].t, z3.Plus(smt.RE("decimal"))))
+    st.pc.append(groups[0].t == z3.Concat(z3.StringVal("$"), groups[1].t))
